@@ -202,5 +202,7 @@ def run(ctx, rep):
     cg.cg_controls(rep, ctx, [('M-C08a', rule_no_conflict_dropped)])
     from props import gen
     gen.rule_must_reject(ctx, rep, gen.configs(ctx), ['equal_priority'], floor=8)
+    # converse on accepted definitions: no reachable match state of the reference automaton has two leaves at the top priority (kind reference-tie), and the graph holds the top-priority leaf
+    gen.rule_automata(ctx, rep, gen.configs(ctx), want=('G20',))
     rep.trusted += ['rustc nightly MIR', 'engines/mirfacts', 'regex-automata: match_pattern enumerates all patterns matching in a state (MatchKind::All)']
     rep.assumptions += ['detection coincides with language intersection only modulo C01 (not claimed)']
